@@ -39,6 +39,10 @@ class AttrMixin:
     def getattr_value(self, v, name, node):
         hk = (v.t, name)
         tys = self.ty(v)
+        nt = self.ntfields.get(v.t)
+        if nt is not None and name in nt and v.t[0] == "tuple":
+            # field of a namedtuple instance
+            return self.lift(v.t[1][nt.index(name)], v.dep)
         if hk in self.heap:
             isprop = False
             for t in tys:
